@@ -1013,6 +1013,19 @@ func rulePanic(sc panicScope) ruleFn {
 						r.Bad("R7.P4", name, construct, r.P.pos(x.Pos()), "explicit panic reachable in this scope; "+r.ctxNote(fn))
 					}
 				case *ssa.BinOp:
+					if x.Op == token.EQL || x.Op == token.NEQ {
+						// P7: == on two interface values panics when both hold the same
+						// uncomparable dynamic type (two JSON objects, two lists, two ErrorLists)
+						if why, risky := ifaceCompareRisk(x); risky {
+							construct := "compare " + shortType(x.X.Type()) + " == " + shortType(x.Y.Type())
+							if reason, ok := useTable(r, cmpTable, name+"/"+construct); ok {
+								r.Tabled("R7.P7", name, construct, r.P.pos(x.Pos()), "cmp", reason)
+							} else {
+								r.Bad("R7.P7", name, construct, r.P.pos(x.Pos()), "two interface values are compared with ==/!=; "+why+": if both hold a map or a slice (a JSON object or list, an error list) Go panics with `comparing uncomparable type`; "+r.ctxNote(fn))
+							}
+						}
+						continue
+					}
 					if x.Op != token.QUO && x.Op != token.REM {
 						continue
 					}
@@ -1198,6 +1211,21 @@ func derefUses(v ssa.Value) []ssa.Instruction {
 		}
 	}
 	return out
+}
+
+// derefOf: the pointer operand a dereferencing instruction goes through.
+func derefOf(u ssa.Instruction) ssa.Value {
+	switch x := u.(type) {
+	case *ssa.FieldAddr:
+		return x.X
+	case *ssa.IndexAddr:
+		return x.X
+	case *ssa.UnOp:
+		return x.X
+	case *ssa.Store:
+		return x.Addr
+	}
+	return nil
 }
 
 // nonNilAt: is v known non-nil at instruction `at`?
@@ -1463,6 +1491,15 @@ func (r *Run) nilChecks(fn *ssa.Function) (nP3, nP5 int) {
 		for _, u := range uses {
 			ok, why := r.nonNilAt(v, u)
 			if !ok {
+				// the dereference may be of a phi the value flowed into (a loop variable
+				// `for ref := t; ref != nil; ref = ref.OfType`): a nil test of that phi counts
+				for _, ref := range *v.Referrers() {
+					if phi, isPhi := ref.(*ssa.Phi); isPhi && derefOf(u) == ssa.Value(phi) {
+						ok, why = r.nonNilAt(phi, u)
+					}
+				}
+			}
+			if !ok {
 				badUse = u
 				break
 			}
@@ -1573,7 +1610,29 @@ func useTable(r *Run, t map[string]tabEntry, key string) (string, bool) {
 	if r.tableUse[uk] > e.N {
 		return "", false
 	}
+	if r.tableUse[uk] > globalTableUse[uk] {
+		globalTableUse[uk] = r.tableUse[uk]
+	}
 	return e.Reason, true
+}
+
+// globalTableUse: per table entry, the largest number of instances any one property run of
+// this process consumed (for the stale-entry report of `check --property all`).
+var globalTableUse = map[string]int{}
+
+// staleTableEntries lists entries whose confirmed count was not used up by any property: the
+// unused credit would silently cover a new instance of the same construct in the package.
+func staleTableEntries() []string {
+	var out []string
+	for _, nt := range allTables {
+		for pk, e := range normTable(nt.t) {
+			if used := globalTableUse[nt.name+"|"+pk]; used < e.N {
+				out = append(out, fmt.Sprintf("STALE-TABLE-ENTRY table=%s key=%q confirmed=%d used=%d", nt.name, pk, e.N, used))
+			}
+		}
+	}
+	sort.Strings(out)
+	return out
 }
 
 // tablePtr / tableName identify the package-level table variables.
@@ -1744,4 +1803,40 @@ func (r *Run) jsonListTypes() map[string]bool {
 	}
 	jsonListTypesMemo = out
 	return out
+}
+
+// cmpTable: interface comparisons accepted by a hand argument.
+var cmpTable = map[string]tabEntry{}
+
+// ifaceCompareRisk: both operands are interface-typed and neither is known to hold a
+// comparable dynamic type (nil, a constant, a conversion from a comparable type, a
+// package-level sentinel such as io.EOF).
+func ifaceCompareRisk(x *ssa.BinOp) (string, bool) {
+	isIface := func(t types.Type) bool {
+		if _, isParam := t.(*types.TypeParam); isParam {
+			return false // instantiated with the element types of the call sites (strings here)
+		}
+		_, ok := t.Underlying().(*types.Interface)
+		return ok
+	}
+	if !isIface(x.X.Type()) || !isIface(x.Y.Type()) {
+		return "", false
+	}
+	safe := func(v ssa.Value) bool {
+		switch y := v.(type) {
+		case *ssa.Const:
+			return true
+		case *ssa.MakeInterface:
+			return types.Comparable(y.X.Type())
+		case *ssa.UnOp:
+			if _, isGlobal := y.X.(*ssa.Global); isGlobal && y.Op == token.MUL {
+				return true
+			}
+		}
+		return false
+	}
+	if safe(x.X) || safe(x.Y) {
+		return "", false
+	}
+	return "neither side is nil, a constant, a conversion from a comparable type or a package-level sentinel", true
 }
